@@ -11,6 +11,7 @@ The client side of C12 (exts/getput) is proved in Props/C12Client.lean and resta
 -/
 import DhtVerif.Lemmas.C12
 import DhtVerif.Props.C12Client
+import DhtVerif.Props.SourceTrees2
 namespace Dht
 open B44
 
@@ -246,5 +247,22 @@ theorem C12.put_token_is_nodes_own (effective : Bool) (e : Getput.Event) (tok : 
     (h : Getput.closestEntryWith effective e = some tok) :
     ∃ r, e = some r ∧ (r.token = some tok ∨ (r.token = none ∧ tok = [] ∧ effective = false)) :=
   C12Client.put_token_is_nodes_own effective e tok h
+
+/-! ## T1 by translation: the check and the targets are the source's -/
+
+/-- `Check` in bep44/item.go (with `Item.IsMutable` and `Verify` read from their own sources) IS the model's
+`check`, for all items and parameters. -/
+theorem C12.check_is_the_source (P : Params) (i : Item) :
+    Gen.treeBep44CheckLets = ckLetsExpected ∧
+    DExp.evalWith (ckCond P i) ckRet Gen.treeBep44Check = some (check P i) :=
+  SourceTrees.bep44Check P i
+
+/-- `Item.Target` (bep44/item.go) and `Put.Target` (bep44/put.go, through `Put.IsMutable` and
+`MakeMutableTarget`) both ARE the model's `target`; `Item.IsMutable` is `Item.isMutable`. -/
+theorem C12.targets_are_the_source (P : Params) (i : Item) :
+    DExp.evalWith (itCond i) (itRet P i) Gen.treeItemTarget = some (target P i) ∧
+    DExp.evalWith (ptCond i) (ptRet P i) Gen.treePutTarget = some (target P i) ∧
+    DExp.evalWith noCond (imRet i) Gen.treeItemIsMutable = some i.isMutable :=
+  ⟨SourceTrees.itemTarget P i, SourceTrees.putTarget P i, SourceTrees.itemIsMutable i⟩
 
 end Dht
